@@ -12,7 +12,7 @@
 (* MCShuttle (all interleavings) and TraceShuttle (trace validation) put   *)
 (* a Next relation on top of the same functions.                           *)
 (***************************************************************************)
-EXTENDS Naturals, Integers, Sequences, FiniteSets, TLC
+EXTENDS Naturals, Integers, Sequences, FiniteSets, TLC, Bitwise
 
 CONSTANTS Progs,        \* sequence of program records (JSON)
           TrackWoken,   \* BOOLEAN: model the poll/wake credit of tasks (needed for traces only)
@@ -54,7 +54,7 @@ InitState(p) ==
    mh |-> [m \in 1..P.nmutex |-> -1], md |-> [m \in 1..P.nmutex |-> 0], mpz |-> [m \in 1..P.nmutex |-> FALSE],
    av |-> [a \in 1..Len(P.atomics) |-> P.atomics[a]],
    cv |-> [c \in 1..P.ncv |-> [list |-> <<>>, nextE |-> 0]],
-   rw |-> [r \in 1..P.nrw |-> [readers |-> {}, writer |-> -1, data |-> 0]],
+   rw |-> [r \in 1..P.nrw |-> [readers |-> {}, writer |-> -1, data |-> 0, pz |-> FALSE]],
    ch |-> [c \in 1..Len(P.chans) |-> [buf |-> <<>>, cap |-> P.chans[c], senders |-> 1, rxalive |-> TRUE,
                                        waitS |-> <<>>, waitR |-> <<>>]],
    sem |-> [x \in 1..Len(P.sems) |-> [avail |-> P.sems[x].n, fair |-> P.sems[x].fair # 0, closed |-> FALSE,
@@ -327,8 +327,11 @@ Complete(s, t) ==
     \* the holder panics while holding a Mutex guard (caught inside the task): released and poisoned
     [] o.k = "punlock" ->
          LET g == s.gd[t+1][o.w+1]
-             b2 == [base EXCEPT !.gd[t+1][o.w+1] = NoGuard, !.mpz[g.o+1] = TRUE] IN
-         R(0, MRelease(b2, g.o))
+             b2 == [base EXCEPT !.gd[t+1][o.w+1] = NoGuard] IN
+         \* (std: only a panicking writer poisons an RwLock)
+         (CASE g.k = "m" -> R(0, MRelease([b2 EXCEPT !.mpz[g.o+1] = TRUE], g.o))
+            [] g.k = "r" -> R(0, RwAfterRelease([b2 EXCEPT !.rw[g.o+1].readers = @ \ {t}], g.o))
+            [] g.k = "w" -> R(0, RwAfterRelease([b2 EXCEPT !.rw[g.o+1].writer = -1, !.rw[g.o+1].pz = TRUE], g.o)))
     [] o.k = "unlock_if" ->
          LET g == s.gd[t+1][o.w+1]
              b2 == [base EXCEPT !.gd[t+1][o.w+1] = NoGuard] IN
@@ -345,15 +348,15 @@ Complete(s, t) ==
          LET g == s.gd[t+1][o.w+1] IN
          IF g.k = "m" THEN R(s.md[g.o+1], base) ELSE R(s.rw[g.o+1].data, base)
     \* ---- RwLock
-    [] o.k = "read" -> R(0, RwAfterAcquire([base EXCEPT !.rw[o.o+1].readers = @ \cup {t}, !.gd[t+1][o.w+1] = [k |-> "r", o |-> o.o]], t, o.o))
-    [] o.k = "write" -> R(0, RwAfterAcquire([base EXCEPT !.rw[o.o+1].writer = t, !.gd[t+1][o.w+1] = [k |-> "w", o |-> o.o]], t, o.o))
+    [] o.k = "read" -> R(IF s.rw[o.o+1].pz THEN 1 ELSE 0, RwAfterAcquire([base EXCEPT !.rw[o.o+1].readers = @ \cup {t}, !.gd[t+1][o.w+1] = [k |-> "r", o |-> o.o]], t, o.o))
+    [] o.k = "write" -> R(IF s.rw[o.o+1].pz THEN 1 ELSE 0, RwAfterAcquire([base EXCEPT !.rw[o.o+1].writer = t, !.gd[t+1][o.w+1] = [k |-> "w", o |-> o.o]], t, o.o))
     [] o.k = "try_read" ->
          IF RFits(s, o.o) /\ t \notin s.rw[o.o+1].readers
-         THEN R(0, RwAfterAcquire([base EXCEPT !.rw[o.o+1].readers = @ \cup {t}, !.gd[t+1][o.w+1] = [k |-> "r", o |-> o.o]], t, o.o))
+         THEN R(IF s.rw[o.o+1].pz THEN 2 ELSE 0, RwAfterAcquire([base EXCEPT !.rw[o.o+1].readers = @ \cup {t}, !.gd[t+1][o.w+1] = [k |-> "r", o |-> o.o]], t, o.o))
          ELSE R(1, base)
     [] o.k = "try_write" ->
          IF WFits(s, o.o)
-         THEN R(0, RwAfterAcquire([base EXCEPT !.rw[o.o+1].writer = t, !.gd[t+1][o.w+1] = [k |-> "w", o |-> o.o]], t, o.o))
+         THEN R(IF s.rw[o.o+1].pz THEN 2 ELSE 0, RwAfterAcquire([base EXCEPT !.rw[o.o+1].writer = t, !.gd[t+1][o.w+1] = [k |-> "w", o |-> o.o]], t, o.o))
          ELSE R(1, base)
     \* ---- Condvar
     [] o.k = "cv_wait" -> R(IF s.mpz[o.v+1] THEN 1 ELSE 0,
@@ -380,6 +383,19 @@ Complete(s, t) ==
     [] o.k = "fsub" -> R(s.av[o.o+1], [base EXCEPT !.av[o.o+1] = (@ + 256 - (o.v % 256)) % 256])
     [] o.k = "fmax" -> R(s.av[o.o+1], [base EXCEPT !.av[o.o+1] = Max(@, o.v % 256)])
     [] o.k = "fmin" -> R(s.av[o.o+1], [base EXCEPT !.av[o.o+1] = IF @ < o.v % 256 THEN @ ELSE o.v % 256])
+    \* bitwise read-modify-writes (u8 cells)
+    [] o.k = "fand" -> R(s.av[o.o+1], [base EXCEPT !.av[o.o+1] = @ & (o.v % 256)])
+    [] o.k = "for" -> R(s.av[o.o+1], [base EXCEPT !.av[o.o+1] = @ | (o.v % 256)])
+    [] o.k = "fxor" -> R(s.av[o.o+1], [base EXCEPT !.av[o.o+1] = @ ^^ (o.v % 256)])
+    [] o.k = "fnand" -> R(s.av[o.o+1], [base EXCEPT !.av[o.o+1] = 255 - (@ & (o.v % 256))])
+    \* AtomicBool cells (declared in Prog.boolcells, values 0 / 1)
+    [] o.k = "b_load" -> R(s.av[o.o+1], base)
+    [] o.k = "b_store" -> R(0, [base EXCEPT !.av[o.o+1] = o.v % 2])
+    [] o.k = "b_swap" -> R(s.av[o.o+1], [base EXCEPT !.av[o.o+1] = o.v % 2])
+    [] o.k = "b_and" -> R(s.av[o.o+1], [base EXCEPT !.av[o.o+1] = IF @ = 1 /\ o.v % 2 = 1 THEN 1 ELSE 0])
+    [] o.k = "b_or" -> R(s.av[o.o+1], [base EXCEPT !.av[o.o+1] = IF @ = 1 \/ o.v % 2 = 1 THEN 1 ELSE 0])
+    [] o.k = "b_xor" -> R(s.av[o.o+1], [base EXCEPT !.av[o.o+1] = IF @ # o.v % 2 THEN 1 ELSE 0])
+    [] o.k = "b_nand" -> R(s.av[o.o+1], [base EXCEPT !.av[o.o+1] = IF @ = 1 /\ o.v % 2 = 1 THEN 0 ELSE 1])
     [] o.k = "cas" -> IF s.av[o.o+1] = o.v THEN R(s.av[o.o+1], [base EXCEPT !.av[o.o+1] = o.w % 256])
                       ELSE R(256 + s.av[o.o+1], base)
     \* ---- std mpsc
